@@ -553,3 +553,59 @@ def c_expr_stack(c, opname):
         ctor.constraint_scope_stack.clear()
         ctor.expr_l.clear()
         leave_expr_mode()
+
+
+# ---- rollback of per-call rewrites reaches every place a rewrite can be installed ---------------------------------------------
+@contract("constraint_override_rollback.rollback", ["C16", "C06", "C03", "C02", "C04"],
+          ["vsc.visitors.constraint_override_rollback_visitor.ConstraintOverrideRollbackVisitor.rollback",
+           "vsc.visitors.constraint_override_rollback_visitor.ConstraintOverrideRollbackVisitor.visit_constraint_override",
+           "vsc.visitors.constraint_override_visitor.ConstraintOverrideVisitor.visit_constraint_scope"],
+          lambda tier, seed: [(where, pos, nested) for where in ("class", "dynamic", "both") for pos in (0, 1, 2) for nested in (False, True)],
+          replay="none",
+          note="rollback: overrides (per-call foreach / dist rewrites) installed at statement position 0..2 of a class block, of a "
+               "dynamic block, or both, on the root or on a sub-object, directly or inside an if/else scope")
+def c_rollback(c, where, pos, nested):
+    from vsc.model.field_composite_model import FieldCompositeModel
+    from vsc.model.constraint_block_model import ConstraintBlockModel
+    from vsc.model.constraint_scope_model import ConstraintScopeModel
+    from vsc.model.constraint_override_model import ConstraintOverrideModel
+    from vsc.model.constraint_model import ConstraintModel
+    from vsc.visitors.constraint_override_rollback_visitor import ConstraintOverrideRollbackVisitor
+
+    class St(ConstraintModel):
+        def __init__(self, nm):
+            super().__init__()
+            self.nm = nm
+
+        def accept(self, v):
+            pass
+
+        def build(self, btor, soft=False):
+            return None
+    root = FieldCompositeModel("o", True)
+    sub = root.add_field(FieldCompositeModel("s", True))
+    tgt = sub if nested else root
+    installed = []
+
+    def mk_block(name, with_override):
+        sts = [St("%s%d" % (name, i)) for i in range(3)]
+        orig = list(sts)
+        if with_override:
+            ov = ConstraintOverrideModel(sts[pos], St("rewrite"))
+            sts[pos] = ov
+            installed.append(ov)
+        inner = ConstraintScopeModel(sts)
+        return ConstraintBlockModel(name, [St(name + "_head"), inner]), inner, orig
+    blk, inner_c, orig_c = mk_block("c", where in ("class", "both"))
+    dyn, inner_d, orig_d = mk_block("d", where in ("dynamic", "both"))
+    dyn.is_dynamic = True
+    tgt.add_constraint(blk)
+    tgt.add_dynamic_constraint(dyn)
+    ConstraintOverrideRollbackVisitor.rollback(root)
+    c.check("after the rollback every statement of every class block is the original statement again",
+            all(a is b for a, b in zip(inner_c.constraint_l, orig_c)) and len(inner_c.constraint_l) == 3)
+    c.check("after the rollback every statement of every dynamic block is the original statement again "
+            "(a dynamic block is rewritten in place when a call references it)",
+            all(a is b for a, b in zip(inner_d.constraint_l, orig_d)) and len(inner_d.constraint_l) == 3)
+    c.check("no override object is left anywhere in the object's blocks",
+            not any(isinstance(x, ConstraintOverrideModel) for x in inner_c.constraint_l + inner_d.constraint_l))
